@@ -43,9 +43,12 @@ C["C13"] = ("For any list of enabled services, every route is registered ('route
 C["C17"] = ("Second sentence of the property, as the precondition of the assumed Marshal/Unmarshal contracts: for the static message type at each of the 8 Marshal/Unmarshal call sites (clients and servers), every avp:\"Name\" struct tag reachable through grouped members is defined in the dictionaries the process loads (go-diameter defaults, RateDictionary, AbmfDictionary - read from the current source on every run), all its definitions agree on code and data type, no other AVP name shares its (code, vendor), the member's go-diameter data type matches the dictionary type (octet-string types count as one wire class), and no two members of a struct carry the same tag. These 'avp' obligations are decided by evaluation inside the generator, not by the SMT solvers.",
                "First sentence (every value received exactly as sent over the AVP's full range) is go-diameter's reflection-based codec: an assumed contract, not verified. Members of CHF-defined enum types are not type-checked. Known finding kept open: Vendor-Specific-Application-Id has codes 260 and 7027.")
 
+C["C01"] = ("Bounded stand-ins (deductive, all values symbolic; never counted as proved): one credit-control step of one request with one rating group, one online used-unit container, no trigger and both peers answering conserves money - account balance + reservation held == the same sum before - unit cost x reported volume - in debit mode (final report: refund of the unused reservation or debit of the excess, reservation left 0) for every unit cost, and in reserve mode when the held reservation covers the usage at unit cost 1. Proved without bound: the CHF decodes the tariff to the unit cost the rating server applied (getUnitCost, integer tariffs), FindRatingGroup is an exact search. The account-balance and rating servers' own arithmetic is C07/C08.",
+               "The peers' behaviour is restated from the server-side contracts as assumed clauses on the Diameter clients (ghost balance and tariff). Not decided and not claimed: conservation across a new reservation in reserve mode (undecided even at unit cost 1), symbolic unit cost in reserve mode (decided only up to cost 4 in about two minutes), several rating groups or containers per request, the history-long invariant, recharges, failure paths (a lost answer).")
+C["C06"] = ("Bounded stand-ins (same setting as C01, reserve mode at unit cost 1, all four scenarios: rating group known/new x reservation held/needed): after a reservation step the account balance is not negative, and the granted volume is at most what the money available buys - min(price of the requested volume, money held for the rating group) / unit cost. In debit mode the reservation ends at 0. The server side (grant == min(requested, balance), final-unit indication iff short) is proved without bound in C07.",
+               "Found and repaired with this clause: the full requested volume was granted whatever the account could reserve (fix dd053e2). Not claimed: that the final-unit indication reaches the Nchf response entry (C06-m1 is missed), symbolic unit cost, several rating groups per request, 'never negative' over a whole history.")
+
 NA = {
- "C01": "The contracts are in place (ghost account balance and tariff on the Diameter clients, a bounded reservation-step lemma), but its two conservation clauses are not decided by the installed solvers within the time limits (450 KB VC, undecided after 300 s); an undecided obligation is not a proof, so the property is not claimed. History-long conservation is outside per-function contracts.",
- "C06": "Same lemma as C01 (not decided). Reading the code while writing it: the granted volume is min(AllowedUnits, requested) with MonetaryQuota = requested x unit cost, so the grant does not depend on what the account-balance server actually reserved; this is recorded in DESIGN.md as observed-not-decided, not as a finding, because no check of ours decides it.",
  "C19": "Matching late answers to requests is a timing/ordering property of channels and goroutines (select with time.After, per-subscriber channel shared across requests); govc models sequential code only.",
 }
 
